@@ -49,7 +49,7 @@ META = dict(
     bounds=dict(quick=dict(platforms=list(PLATFORMS), methods="every public method of each platform's Process class that needs no live subprocess", errno=ERRNOS, windows_codes=WINERRS, failures="one (the first native call)", pids=[0, 5]),
                 thorough=dict(platforms=list(PLATFORMS), methods="as quick", errno=ERRNOS, failures="one, at any of the first 3 native calls", pids=[0, 5])),
     outside=["subprocess-based methods (pfiles/procfiles) and Windows services", "the clause about exposed function/constant names (a static comparison of two lists, not a solver question)", "more than one native failure per call"],
-    labels=["no-such-process->NSP/Zombie", "permission->AD", "other-errors-unchanged", "pid0-AD", "bsd-record-slots", "osx-record-slots", "windows-record-slots", "windows-broadcast", "mac-padding", "connection-record-slots"],
+    labels=["no-such-process->NSP/Zombie", "permission->AD", "other-errors-unchanged", "pid0-AD", "bsd-record-slots", "osx-record-slots", "windows-record-slots", "windows-broadcast", "mac-padding", "connection-record-slots", "cached-name-in-exception"],
 )
 
 
@@ -88,11 +88,15 @@ class _OsFail:
         return v
 
 
-def setup_probes(PL, lab, family, zombie, listed):
+def setup_probes(PL, lab, family, zombie, listed, ctx=None):
     if family == "bsd":
         n = len(PL.kinfo_proc_map)
         rec = [0] * n
-        rec[PL.kinfo_proc_map["status"]] = PL.cext.SZOMB if zombie else PL.cext.SRUN
+        # the raw status the kernel gives an unreaped process differs between the BSDs (OpenBSD: SDEAD; SZOMB is unused there, says the
+        # layer's own table): every raw value the layer's table maps to "zombie" is a zombie
+        zraws = sorted(raw for raw, v_ in PL.PROC_STATUSES.items() if v_ == "zombie")
+        zraw = (ctx.choice("zombie_raw_status", zraws) if ctx is not None and len(zraws) > 1 else zraws[0]) if zombie else None
+        rec[PL.kinfo_proc_map["status"]] = zraw if zombie else PL.cext.SRUN
         rec[PL.kinfo_proc_map["name"]] = "nm"
         lab.answers["proc_oneshot_info"] = lambda pid: tuple(rec)
         lab.answers["pids"] = lambda: [0, 5] if listed else [5]
@@ -126,7 +130,7 @@ def errors(ctx, plat_, pid, fail_at):
     winerr = None if wname is None else getattr(PL.cext, wname)
     lab.windows = family == "win"
     saved_os = None
-    setup_probes(PL, lab, family, zombie, listed)
+    setup_probes(PL, lab, family, zombie, listed, ctx)
     if hasattr(PL, "os"):
         saved_os = PL.os
         PL.os = _OsFail(saved_os, lab, "os")
@@ -480,6 +484,32 @@ def procfs_slots(ctx, plat_, cred_denied):
         ok += [ctx.eq(u.real, cred[0]), ctx.eq(u.effective, cred[1]), ctx.eq(u.saved, cred[2]), ctx.eq(g.real, cred[3]), ctx.eq(g.effective, cred[4]), ctx.eq(g.saved, cred[5])]
     ctx.prove(ctx.all(ok), "procfs-record-slots", detail=f"{plat_}: slots {slot}")
     ctx.prove(type(u).__name__ == "puids" and type(g).__name__ == "pgids", "documented-tuple-types", detail=f"{plat_}: uids() -> {type(u).__name__}, gids() -> {type(g).__name__}")
+
+
+@harness("C20.cached_name", quick=[dict(plat_=p_) for p_ in ("windows", "freebsd", "macos")])
+def cached_name(ctx, plat_):
+    """through the package front end (pkg.Process, not the platform class): once name() has answered, a later native failure of
+    another method is reported with that name in the exception (and the pid)"""
+    pkg, PL, mods, lab, family = get(plat_)
+    lab.windows = family == "win"
+    setup_probes(PL, lab, family, False, True, ctx)
+    lab.answers.update(check_pid_range=lambda pid: None, proc_times=lambda pid: (1.0, 2.0, 3.0), proc_exe=lambda pid: "C:\\dir\\prog.exe", ppid_map=lambda: {5: 1})
+    en = ctx.choice("errno", ["EACCES", "EPERM", "ESRCH"])
+    wname = ctx.choice("winerror", [None, "ERROR_ACCESS_DENIED"]) if family == "win" else None
+    lab.arm()
+    pr = ctx.guard("cached-name-in-exception", pkg.Process, 5)
+    nm = ctx.guard("cached-name-in-exception", pr.name)
+    lab.arm(fail_at=0, fail_errno=getattr(errno, en), winerror=None if wname is None else getattr(PL.cext, wname))
+    try:
+        pr.nice()
+        exc = None
+    except pkg.Error as x:
+        exc = x
+    finally:
+        calls = list(lab.calls)
+        lab.arm()
+    info = f"{plat_}: name() -> {nm!r}; then nice() with the native call {calls[:1]} failing ({en}, {wname}) -> {exc!r}"
+    ctx.prove(exc is not None and exc.pid == 5 and exc.name == nm and bool(nm), "cached-name-in-exception", detail=info)
 
 
 # ---- connection records ----------------------------------------------------------------------------------------------------
